@@ -1,5 +1,6 @@
 import RedisEmu.Dict
 import RedisEmu.Proofs.Rev
+import RedisEmu.Proofs.DictWF
 import Mathlib.Tactic.SplitIfs
 /-
   C17 — SCAN / HSCAN / SSCAN. Theorems about `RedisEmu.Dict` (tied to `redisDict.go` /
@@ -367,5 +368,312 @@ theorem scan_sound (d : Dict) (f : Bytes → Bool) (c n : Nat) (k : Bytes) (h : 
   rcases scanFrom_sound d f _ _ _ [] k h with e | e
   · simp at e
   · exact e
+
+/-! ### the tables the iteration runs over: `store` and `remove` keep them well-formed and lose nothing
+
+`scan_complete` above quantifies over arbitrary well-formed tables between two calls. The theorems
+below show that the tables the code can actually produce are of that kind: starting from the empty
+table every `store` / `remove` (with the doublings and halvings they trigger) yields a well-formed
+table in which every element that was not removed is still held. -/
+
+theorem wf_empty : Dict.empty.WF := by
+  constructor
+  · simp [Dict.empty]
+  · intro i it h
+    have : Dict.empty.slot i = none := by
+      rw [Dict.slot_eq]; exact slotOf_replicate 16 i
+    rw [this] at h; cases h
+
+theorem wf_of_shape (d : Dict) (h1 : d.buckets.size = 2 ^ d.k)
+    (h2 : ∀ i it, slotOf d.buckets i = some it → bucketOf d.k it.hash = i) : d.WF :=
+  ⟨h1, fun i it h => h2 i it (by rw [← Dict.slot_eq]; exact h)⟩
+
+theorem rehash_wf (d : Dict) (k' : Nat) : (rehash d k').WF := by
+  have hk : (rehash d k').k = k' := by rw [rehash_eq]
+  apply wf_of_shape
+  · rw [hk]; exact (rehash_shape d k').1
+  · rw [hk]; exact (rehash_shape d k').2
+
+/-- `store` keeps the table well-formed -/
+theorem store_wf (d d' : Dict) (key : Bytes) (h : Nat) (hw : d.WF) (hs : d.store key h = .ok d') : d'.WF := by
+  unfold Dict.store at hs
+  simp only at hs
+  cases hsl : d.slot (bucketOf d.k h) with
+  | none =>
+    rw [hsl] at hs
+    simp only [StoreResult.ok.injEq] at hs
+    subst hs
+    apply wf_of_shape
+    · simp [hw.size]
+    · intro i it hi
+      simp only at hi
+      rw [slotOf_set] at hi
+      split_ifs at hi with hc
+      · cases hi; exact hc.1
+      · exact hw.place i it (by rw [Dict.slot_eq]; exact hi)
+  | some it0 =>
+    rw [hsl] at hs
+    simp only at hs
+    split_ifs at hs with hk
+    · cases hs; exact hw
+    · cases hg : growTo it0.hash h (31 - d.k) d.k with
+      | none => rw [hg] at hs; cases hs
+      | some k' =>
+        rw [hg] at hs
+        simp only [StoreResult.ok.injEq] at hs
+        subst hs
+        have hk' : (rehash d k').k = k' := by rw [rehash_eq]
+        apply wf_of_shape
+        · simp only [Array.size_setIfInBounds, hk']; exact (rehash_shape d k').1
+        · intro i it hi
+          simp only [hk'] at hi ⊢
+          rw [slotOf_set] at hi
+          split_ifs at hi with hc
+          · cases hi; exact hc.1
+          · exact (rehash_shape d k').2 i it hi
+
+/-- `store` loses nothing: every element held before is held afterwards (whether or not the table
+    was doubled, any number of times, to separate the new element from the occupant of its bucket) -/
+theorem store_keeps (d d' : Dict) (key : Bytes) (h : Nat) (x : Item) (hw : d.WF)
+    (hs : d.store key h = .ok d') (hx : d.Holds x) : d'.Holds x := by
+  unfold Dict.store at hs
+  simp only at hs
+  unfold Dict.Holds at hx ⊢
+  cases hsl : d.slot (bucketOf d.k h) with
+  | none =>
+    rw [hsl] at hs
+    simp only [StoreResult.ok.injEq] at hs
+    subst hs
+    simp only [Dict.slot_eq] at hx hsl ⊢
+    rw [slotOf_set]
+    have hne : bucketOf d.k h ≠ bucketOf d.k x.hash := by
+      intro e; rw [e, hx] at hsl; cases hsl
+    simp [hne, hx]
+  | some it0 =>
+    rw [hsl] at hs
+    simp only at hs
+    split_ifs at hs with hk
+    · cases hs; exact hx
+    · cases hg : growTo it0.hash h (31 - d.k) d.k with
+      | none => rw [hg] at hs; cases hs
+      | some k' =>
+        rw [hg] at hs
+        simp only [StoreResult.ok.injEq] at hs
+        subst hs
+        obtain ⟨hlt, hdiff⟩ := growTo_spec it0.hash h _ _ _ hg
+        have hk' : (rehash d k').k = k' := by rw [rehash_eq]
+        have hplace : ∀ i it, slotOf d.buckets i = some it → bucketOf d.k it.hash = i :=
+          fun i it hi => hw.place i it (by rw [Dict.slot_eq]; exact hi)
+        have hsep := sep_of_grow d.k k' d.buckets (by omega) hplace
+        simp only [Dict.slot_eq, hk'] at hx hsl ⊢
+        have hkept := rehash_content d k' hsep _ x hx
+        rw [slotOf_set]
+        have hne : bucketOf k' h ≠ bucketOf k' x.hash := by
+          intro e
+          -- then x shares the old bucket with the new element, so it is the occupant it0
+          obtain ⟨dd, rfl⟩ := Nat.exists_eq_add_of_le (Nat.le_of_lt hlt)
+          have e2 : bucketOf d.k h = bucketOf d.k x.hash := by
+            rw [bucketOf_shrink d.k dd h, bucketOf_shrink d.k dd x.hash, e]
+          rw [e2, hx] at hsl
+          cases hsl
+          exact hdiff (bucketOf_inj _ _ _ e.symm)
+        simp [hne, hkept]
+
+/-- after `store` the element is held -/
+theorem store_holds (d d' : Dict) (key : Bytes) (h : Nat) (hw : d.WF)
+    (hs : d.store key h = .ok d')
+    (hkey : ∀ it, d.slot (bucketOf d.k h) = some it → it.key = key → it.hash = h) :
+    d'.Holds { hash := h, key := key } := by
+  unfold Dict.store at hs
+  simp only at hs
+  unfold Dict.Holds
+  cases hsl : d.slot (bucketOf d.k h) with
+  | none =>
+    rw [hsl] at hs
+    simp only [StoreResult.ok.injEq] at hs
+    subst hs
+    simp only [Dict.slot_eq] at hsl ⊢
+    rw [slotOf_set]
+    have hlt : bucketOf d.k h < d.buckets.size := by rw [hw.size]; exact bucketOf_lt _ _
+    simp [hlt]
+  | some it0 =>
+    rw [hsl] at hs
+    simp only at hs
+    split_ifs at hs with hk
+    · cases hs
+      have hkk : it0.key = key := by simpa using hk
+      have hh := hkey it0 hsl hkk
+      rw [hsl]
+      cases it0
+      simp_all
+    · cases hg : growTo it0.hash h (31 - d.k) d.k with
+      | none => rw [hg] at hs; cases hs
+      | some k' =>
+        rw [hg] at hs
+        simp only [StoreResult.ok.injEq] at hs
+        subst hs
+        have hk' : (rehash d k').k = k' := by rw [rehash_eq]
+        simp only [Dict.slot_eq, hk']
+        rw [slotOf_set]
+        have : bucketOf k' h < (rehash d k').buckets.size := by
+          rw [(rehash_shape d k').1]; exact bucketOf_lt k' h
+        simp [this]
+
+/-- the three shapes the result of `remove` can have -/
+theorem remove_cases (d : Dict) (key : Bytes) (h : Nat) :
+    (d.remove key h = (d, false)) ∨
+    (∃ it d1, d.slot (bucketOf d.k h) = some it ∧ it.key = key ∧
+      d1.k = d.k ∧ d1.buckets = d.buckets.setIfInBounds (bucketOf d.k h) none ∧
+      ((d.remove key h).1 = d1 ∨
+       (d.k > 4 ∧ pairsFree d1.buckets.toList = true ∧ (d.remove key h).1 = rehash d1 (d.k - 1))) ∧
+      (d.remove key h).2 = true) := by
+  unfold Dict.remove
+  simp only
+  cases hsl : d.slot (bucketOf d.k h) with
+  | none => left; rfl
+  | some it =>
+    simp only
+    by_cases hk : it.key = key
+    · right
+      have hkk : (it.key != key) = false := by simp [hk]
+      simp only [hkk, Bool.false_eq_true, if_false]
+      split_ifs with h1 h2
+      · refine ⟨it, { d with buckets := d.buckets.setIfInBounds (bucketOf d.k h) none, count := d.count - 1, removals := 0 },
+          rfl, hk, rfl, rfl, Or.inr ⟨?_, ?_, rfl⟩, rfl⟩
+        · simp only [Bool.and_eq_true, decide_eq_true_eq] at h2; exact h2.1
+        · simp only [Bool.and_eq_true, decide_eq_true_eq] at h2; exact h2.2
+      · exact ⟨it, { d with buckets := d.buckets.setIfInBounds (bucketOf d.k h) none, count := d.count - 1, removals := 0 },
+          rfl, hk, rfl, rfl, Or.inl rfl, rfl⟩
+      · exact ⟨it, { d with buckets := d.buckets.setIfInBounds (bucketOf d.k h) none, count := d.count - 1, removals := d.removals + 1 },
+          rfl, hk, rfl, rfl, Or.inl rfl, rfl⟩
+    · left
+      have hkk : (it.key != key) = true := by simp [hk]
+      simp [hkk]
+
+theorem wf_after_clear (d d1 : Dict) (b : Nat) (hw : d.WF) (hk : d1.k = d.k)
+    (hb : d1.buckets = d.buckets.setIfInBounds b none) : d1.WF := by
+  apply wf_of_shape
+  · rw [hb, hk]; simp [hw.size]
+  · intro i it hi
+    rw [hb, slotOf_set] at hi
+    rw [hk]
+    split_ifs at hi with hc
+    exact hw.place i it (by rw [Dict.slot_eq]; exact hi)
+
+/-- `remove` keeps the table well-formed, also when it halves it -/
+theorem remove_wf (d : Dict) (key : Bytes) (h : Nat) (hw : d.WF) : (d.remove key h).1.WF := by
+  rcases remove_cases d key h with e | ⟨it, d1, _, _, hk, hb, hres, _⟩
+  · rw [e]; exact hw
+  · rcases hres with e | ⟨_, _, e⟩
+    · rw [e]; exact wf_after_clear d d1 _ hw hk hb
+    · rw [e]; exact rehash_wf d1 _
+
+/-- `remove` loses nothing but the element it removes: every other element held before is held
+    afterwards, also across the halving of the table -/
+theorem remove_keeps (d : Dict) (key : Bytes) (h : Nat) (x : Item) (hw : d.WF)
+    (hx : d.Holds x) (hne : x.key ≠ key) : (d.remove key h).1.Holds x := by
+  rcases remove_cases d key h with e | ⟨it, d1, hsl, hitk, hk, hb, hres, _⟩
+  · rw [e]; exact hx
+  · -- x is not in the cleared bucket
+    have hbx : bucketOf d.k h ≠ bucketOf d.k x.hash := by
+      intro e
+      unfold Dict.Holds at hx
+      rw [e, hx] at hsl
+      cases hsl
+      exact hne hitk
+    have hx1 : slotOf d1.buckets (bucketOf d.k x.hash) = some x := by
+      rw [hb, slotOf_set]
+      simp only [hbx, false_and, if_false]
+      exact hx
+    have hw1 := wf_after_clear d d1 _ hw hk hb
+    rcases hres with e | ⟨hgt, hfree, e⟩
+    · rw [e]; unfold Dict.Holds; rw [hk, Dict.slot_eq]; exact hx1
+    · rw [e]
+      unfold Dict.Holds
+      have hkk : (rehash d1 (d.k - 1)).k = d.k - 1 := by rw [rehash_eq]
+      rw [hkk, Dict.slot_eq]
+      have hplace : ∀ i it, slotOf d1.buckets i = some it → bucketOf ((d.k - 1) + 1) it.hash = i := by
+        intro i it hi
+        have : d.k - 1 + 1 = d1.k := by omega
+        rw [this]
+        exact hw1.place i it (by rw [Dict.slot_eq]; exact hi)
+      exact rehash_content d1 (d.k - 1) (sep_of_halve (d.k - 1) d1.buckets hplace hfree) _ x hx1
+
+/-- after a successful `remove` the element is gone (not merely hidden: no bucket holds it) -/
+theorem remove_removes (d : Dict) (key : Bytes) (h : Nat) (hw : d.WF)
+    (hok : (d.remove key h).2 = true) : ¬ (d.remove key h).1.Holds { hash := h, key := key } := by
+  rcases remove_cases d key h with e | ⟨it, d1, hsl, hitk, hk, hb, hres, _⟩
+  · rw [e] at hok; cases hok
+  · have hb0 : bucketOf d.k h < d.buckets.size := by rw [hw.size]; exact bucketOf_lt _ _
+    have hcleared : slotOf d1.buckets (bucketOf d.k h) = none := by
+      rw [hb, slotOf_set]; simp [hb0]
+    have hw1 := wf_after_clear d d1 _ hw hk hb
+    rcases hres with e | ⟨_, _, e⟩
+    · rw [e]; unfold Dict.Holds; rw [hk, Dict.slot_eq, hcleared]; simp
+    · rw [e]
+      intro hh
+      unfold Dict.Holds at hh
+      rw [Dict.slot_eq] at hh
+      obtain ⟨i, hi⟩ := rehash_source d1 _ _ _ hh
+      have := hw1.place i _ (by rw [Dict.slot_eq]; exact hi)
+      simp only [hk] at this
+      rw [← this, hcleared] at hi
+      cases hi
+
+/-- **Reachable tables.** Every table built from the empty one by any sequence of `store` and `remove`
+    operations (none of which hit the 31-bit collision) is well-formed — so `scan_complete`,
+    `scan_sound` and `scan_progress` apply to every table the emulator can be in between two calls. -/
+inductive DictOp where
+  | store (key : Bytes) (h : Nat)
+  | remove (key : Bytes) (h : Nat)
+
+def applyOp (d : Dict) : DictOp → Option Dict
+  | .store key h => match d.store key h with | .ok d' => some d' | .crash => none
+  | .remove key h => some (d.remove key h).1
+
+def applyOps : Dict → List DictOp → Option Dict
+  | d, [] => some d
+  | d, op :: r => match applyOp d op with | some d' => applyOps d' r | none => none
+
+theorem reachable_wf (ops : List DictOp) : ∀ (d d' : Dict), d.WF → applyOps d ops = some d' → d'.WF := by
+  induction ops with
+  | nil => intro d d' hw h; simp only [applyOps, Option.some.injEq] at h; subst h; exact hw
+  | cons op r ih =>
+    intro d d' hw h
+    unfold applyOps at h
+    cases op with
+    | store key hh =>
+      simp only [applyOp] at h
+      cases hs : d.store key hh with
+      | ok d1 => rw [hs] at h; exact ih d1 d' (store_wf d d1 key hh hw hs) h
+      | crash => rw [hs] at h; cases h
+    | remove key hh =>
+      simp only [applyOp] at h
+      exact ih _ d' (remove_wf d key hh hw) h
+
+/-- an element stored once and never removed is held in every later table, whatever else is stored
+    or removed, however often the table doubles or halves -/
+theorem stored_element_stays (ops : List DictOp) (x : Item)
+    (hnot : ∀ op ∈ ops, match op with | .remove key _ => key ≠ x.key | .store _ _ => True) :
+    ∀ (d d' : Dict), d.WF → d.Holds x → applyOps d ops = some d' → d'.Holds x := by
+  induction ops with
+  | nil => intro d d' _ hx h; simp only [applyOps, Option.some.injEq] at h; subst h; exact hx
+  | cons op r ih =>
+    intro d d' hw hx h
+    have hr : ∀ op ∈ r, match op with | .remove key _ => key ≠ x.key | .store _ _ => True :=
+      fun o ho => hnot o (List.mem_cons_of_mem _ ho)
+    unfold applyOps at h
+    cases op with
+    | store key hh =>
+      simp only [applyOp] at h
+      cases hs : d.store key hh with
+      | ok d1 =>
+        rw [hs] at h
+        exact ih hr d1 d' (store_wf d d1 key hh hw hs) (store_keeps d d1 key hh x hw hs hx) h
+      | crash => rw [hs] at h; cases h
+    | remove key hh =>
+      simp only [applyOp] at h
+      have hk : key ≠ x.key := hnot (.remove key hh) List.mem_cons_self
+      exact ih hr _ d' (remove_wf d key hh hw) (remove_keeps d key hh x hw hx (fun e => hk e.symm)) h
 
 end RedisEmu
